@@ -167,6 +167,9 @@ class Fn(object):
             return self.resolved(e)
         if isinstance(e, ast.Attribute):
             if self.is_local(e):
+                # an attribute of a local object (opcode.serviceaction.REGISTER): objects are dictionaries of their attributes in the model
+                if isinstance(e.ctx, ast.Load) and not e.attr.startswith("__"):
+                    return "(EAttr %s %s)" % (self.ex(e.value), coq_str(e.attr))
                 return self.eunk(e)
             return self.resolved(e)
         if isinstance(e, ast.List):
@@ -267,8 +270,12 @@ class Fn(object):
                 return "(EBytearray %s)" % (self.ex(e.args[0]) if nargs else "(EConst (PBytes []))")
             if d == "range" and nargs == 1 and not nkw:
                 return "(ERange %s)" % self.ex(e.args[0])
+        if isinstance(f, ast.Attribute) and f.attr == "join" and isinstance(f.value, ast.Constant) and f.value.value == b"" and nargs == 1 and not nkw:
+            return "(EJoin %s)" % self.ex(e.args[0])
         # methods of local objects
         if isinstance(f, ast.Attribute) and self.is_local(f.value) or (isinstance(f, ast.Attribute) and isinstance(f.value, (ast.Subscript, ast.Call))):
+            if f.attr == "copy" and nargs == 0 and not nkw and self.is_local(f.value):
+                return "(ECopy %s)" % self.ex(f.value)
             if f.attr == "get" and nargs in (1, 2) and not nkw:
                 return "(EGet %s %s %s)" % (self.ex(f.value), self.ex(e.args[0]), self.opt(e.args[1] if nargs == 2 else None))
             if f.attr == "rstrip" and nargs == 1 and isinstance(e.args[0], ast.Constant) and e.args[0].value == "\0" \
